@@ -27,8 +27,8 @@ def reduce_candidates(cell, bundle):
 PID = "C02"
 RULE = (
     "Cells = every catalogued operation (accessors, momentum accessors, unary/scalar-argument/binary methods, all 12 Euler "
-    "orders) x operand dimensions x signature (all-Cartesian always; quick: plus 3 deterministic pseudo-random other "
-    "signatures per operation, thorough: all signatures) x tier {mp object, f64 object, f64 NumPy array, f64 Awkward array}. One generated case "
+    "orders) x operand dimensions x signature (60-digit tier: every signature; float64 tiers: all-Cartesian plus 3 "
+    "deterministic pseudo-random signatures per operation in quick, all in thorough) x tier {mp object, f64 object, f64 NumPy array, f64 Awkward array}. One generated case "
     "is a bundle with one sub-case per stratum (mp: all regular strata; f64: well-conditioned stratum); operands are canonical "
     "Cartesian values expressed in the cell's stored systems by the reference converters. The result is read back as stored "
     "coordinates + coordinate classes, converted with the reference converters and compared with the reference definition. "
@@ -86,9 +86,12 @@ def cells(tier):
                             cid = f"{op.name}|{da}{R.sysname(sa)}|{db or ''}{R.sysname(sb) if sb else ''}|{order or ''}|acc"
                             out.append({"id": cid, "op": op.name, "da": da, "db": db, "sa": R.sysname(sa),
                                         "sb": R.sysname(sb) if sb else None, "order": order, "mode": "acc"})
-                for sa, sb in sigs:
+                allsigs = [(sa, sb) for sa in R.SYSTEMS[da] for sb in (R.SYSTEMS[db] if db else [None])]
+                for sa, sb in (allsigs if op.name not in ("equal", "not_equal") else sigs):
                     for order in orders:
                         for mode in ("mp", "f64", "np", "ak"):
+                            if (sa, sb) not in sigs and (mode != "mp" or (order is not None and order != orders[0])):
+                                continue  # quick: every signature in the 60-digit tier, a sample in the float64 tiers
                             if "synonym" in op.tags and mode != "f64" and tier == "quick":
                                 continue
                             if mode == "ak" and tier == "quick" and (sa, sb) != sigs[0] and (sa, sb) != sigs[-1]:
